@@ -244,6 +244,16 @@ func init() {
 		e.putNode(p+".bz2", n)
 		return nil
 	}
+	// verifTryLock: true if nobody holds an exclusive flock on the file
+	verifAPI["verifTryLock"] = func(fr *frame, args []value) value {
+		e := fr.i.ctx.env
+		return !e.locks[cleanPath(e, fr.concreteString(args[0]))]
+	}
+	verifAPI["verifHoldLock"] = func(fr *frame, args []value) value {
+		e := fr.i.ctx.env
+		e.locks[cleanPath(e, fr.concreteString(args[0]))] = true
+		return nil
+	}
 	verifAPI["verifMapOrder"] = func(fr *frame, args []value) value {
 		fr.i.ctx.mapOrder = int(fr.concreteInt(args[0]))
 		return nil
